@@ -200,7 +200,7 @@ theorem canon_path (puny : Str → Str) (quoted sf : Bool) (p : Parsed) (h : abs
 
 /-- the root case, explicitly: a path that resolves to the root becomes `"/"` when a query or
 a fragment follows — or when the host ends with a white-space character and nothing else
-would follow it (`hasMore`, FX-C02-TRAILINGWS) — and `""` otherwise, in both modes -/
+would follow it (`hasMore`, FX-C02-16f182c) — and `""` otherwise, in both modes -/
 theorem canon_path_root (puny : Str → Str) (quoted sf : Bool) (p : Parsed)
     (h : absPath p.path = true) (hroot : (pathView p.path).1 = []) :
     (canonComps puny quoted sf p).path = if hasMore puny sf p then ['/'] else [] := by
@@ -214,7 +214,7 @@ theorem canon_path_root (puny : Str → Str) (quoted sf : Bool) (p : Parsed)
   generalize hasMore puny sf p = m
   cases quoted <;> cases m <;> decide
 
-/-- non-vacuity of the third way to `"/"` (FX-C02-TRAILINGWS): a host ending with a no-break
+/-- non-vacuity of the third way to `"/"` (FX-C02-16f182c): a host ending with a no-break
 space and neither query nor fragment keeps the slash; the same host with a port does not
 need it; a bracketed host ends with `]` -/
 example :
